@@ -94,8 +94,19 @@ void runIni(const Plan& p)
 		{
 			std::string sec;
 			do
+			{
 				sec = sectionOf(r);
-			while (std::find(sections.begin(), sections.end(), sec) != sections.end());
+				// section names that are prefixes / extensions of one another, in either order
+				if (!sections.empty() && r.below(3) == 0)
+				{
+					const std::string& other = sections[r.below((uint32_t)sections.size())];
+					sec = r.below(2) ? other + std::string(1, "0abX_"[r.below(5)]) : (other.size() > 1 ? other.substr(0, other.size() - 1) : other + "x");
+					while (!sec.empty() && sec.back() == ' ')
+						sec.pop_back();
+					if (sec.empty() || sec == "-")
+						sec = "s";
+				}
+			} while (std::find(sections.begin(), sections.end(), sec) != sections.end());
 			sections.push_back(sec);
 			lines.push_back({2, "[" + sec + "]", sec, "", ""});
 			int nk = (int)r.below(5);
@@ -153,9 +164,16 @@ void runIni(const Plan& p)
 				sec = sections[(size_t)si % sections.size()];
 			else
 			{
-				do
-					sec = sectionOf(r);
-				while (false);
+				sec = sectionOf(r);
+				if (!sections.empty() && r.below(2))
+				{
+					const std::string& other = sections[r.below((uint32_t)sections.size())];
+					sec = other.size() > 1 && r.below(2) ? other.substr(0, other.size() - 1) : other + "2";
+					while (!sec.empty() && sec.back() == ' ')
+						sec.pop_back();
+					if (sec.empty() || sec == "-")
+						sec = "s2";
+				}
 				if (std::find(sections.begin(), sections.end(), sec) == sections.end())
 					sections.push_back(sec);
 			}
